@@ -191,7 +191,8 @@ Record element := Element {
   e_kind : ekind;
   e_src : lineseq;         (* element.source *)
   e_path : text;           (* source_location_info.file_path_rel_referrer *)
-  e_chain : list loc }.    (* source_location_info.file_inclusion_chain *)
+  e_chain : list loc;      (* source_location_info.file_inclusion_chain *)
+  e_desc : option text }.  (* instruction_info.description (None: no description / not an instruction of a phase other than act) *)
 
 Inductive access_why := Missing | Cyclic.
 Inductive error :=
@@ -248,6 +249,36 @@ Definition at_eof (ls : list text) : bool :=
     while there is a current line (also the empty one after a final newline) satisfying the predicate *)
 Fixpoint take_while_lines (p : text -> bool) (ls : list text) : list text :=
   match ls with [] => [] | l :: r => if p l then l :: take_while_lines p r else [] end.
+
+(** ** _DescriptionExtractor: the description text.  The text between the opening back-tick (first non-space
+      character of the element's first line) and the next back-tick — on the same or a later line, whatever the
+      lines in between look like — with surrounding white space removed ([str.strip], newlines included). *)
+Definition strip (t : text) : text := drop_while is_space (rstrip t).
+Fixpoint desc_tail (ls : list text) : option text :=
+  match ls with
+  | [] => None
+  | l :: r => match find_char c_btick l with
+              | Some p => Some (NL :: firstn p l)
+              | None => option_map (fun t => NL :: l ++ t) (desc_tail r)
+              end
+  end.
+Definition instr_desc (l0 : text) (rest : list text) : option text :=
+  match skipn (count_while is_space l0) l0 with
+  | ch :: r0 =>
+      if ch =? c_btick then
+        match find_char c_btick r0 with
+        | Some p => Some (strip (firstn p r0))
+        | None => option_map (fun t => strip (r0 ++ t)) (desc_tail rest)
+        end
+      else None
+  | [] => None
+  end.
+(** the description recorded with the element that starts at line [l0] of a phase *)
+Definition elem_desc (s : sec) (l0 : text) (rest : list text) : option text :=
+  match s with
+  | SAct => None
+  | _ => if is_empty_line l0 || is_comment_line l0 then None else instr_desc l0 rest
+  end.
 
 Section Reader.
   Variable iparse : sec -> text -> list text -> ires.
@@ -384,7 +415,7 @@ Section Reader.
               match elem_step cur n l0 rest with
               | SElem k src consumed =>
                   loop inc fuel' fi cur (n + N.of_nat consumed) (skipn consumed ls)
-                       (add_elem cur (Element k src (fi_path fi) (fi_chain fi)) doc)
+                       (add_elem cur (Element k src (fi_path fi) (fi_chain fi) (elem_desc cur l0 rest)) doc)
               | SIncl src tok =>
                   match inc cur src tok with
                   | Ok d => loop inc fuel' fi cur (n + 1) rest (merge doc d)
